@@ -14,6 +14,12 @@ Streams (implementation = harness/src/bin/loud.rs on the crate built from the tr
             item lands (bank without outp / without size, filled bank, default bank after a #bankdef, very end of a sized
             bank, past the end via #addr/#align, unaligned, zero-sized bank) x labels before/after x what follows; a share of
             it also goes through the driver and the real binary.
+            directed family `note_parent` (the full product on every run, budgets 1/2/10): an asm block that substitutes a
+            local - so that eval_asm opens the Note `match attempted` - in every context an expression can stand in (constant,
+            nested block, #res/#addr/#align/#assert/#if arguments, #d, #fn, instruction argument, #bankdef field) x what fails
+            inside (no match, out of range, rule assert, ambiguity, unknown symbol, nested asm, undefined substitution ...); the
+            error is then stored under a top-level NOTE.  Oracle: an error at ANY depth counts as the error diagnostic, and
+            Report::has_errors() must agree with the message tree (read through the verif_messages hook).
             directed family `magnitude` (the full product on every run): ~60 templates with a numeric hole (shift amounts and
             operands, #res/#align/#addr, slice bounds, `N sizes, #dN and uN/sN/iN widths, every #bankdef field, incbin ranges,
             arithmetic) x machine-word extremes and neighbours (2^31-1 .. 2^64+1, 2^64-1-k for k < 17, negatives) x
@@ -38,7 +44,8 @@ from concurrent.futures import ThreadPoolExecutor
 import vlib
 import c03_gen as g
 
-RULE = ("library: directed magnitude family (~60 numeric-hole templates x 62 machine-word extremes x spellings; left shifts by >= 2^31 or < 0 must fail); "
+RULE = ("library: directed note_parent family (19 expression contexts x 16 asm-block bodies with a substitution, x budgets 1/2/10); "
+        "directed magnitude family (~60 numeric-hole templates x 62 machine-word extremes x spellings; left shifts by >= 2^31 or < 0 must fail); "
         "directed zero-size family (18 items x 20 bank situations x 4 label layouts x 3 continuations, all of them on every run); "
         "every tests/**/*.asm entry unmutated + token-level mutants (1..8 edits out of delete/duplicate/swap/replace token, spliced "
         "line of another file, non-ASCII character as own token / inside an identifier or number / inside a comment or string, a number replaced by a machine-word extreme, unbalanced "
@@ -50,7 +57,7 @@ RULE = ("library: directed magnitude family (~60 numeric-hole templates x 62 mac
         "stdout/stderr and non-UTF-8 arguments; "
         "inputs with bracket nesting > 200 or operator runs > 5000 are never generated and a stack overflow on one would be class c19.")
 
-THEOREMS = ["C03_ok_clean", "C03_err_loud", "C03_assemble_glue_never_panics", "C03_outcome_exclusive", "C03_shape_matches_source",
+THEOREMS = ["C03_ok_clean", "C03_err_loud", "C03_assemble_glue_never_panics", "C03_outcome_exclusive", "C03_shape_matches_source", "C03_note_wrapped_needs_top_on_continue",
             "C03_source_shape_ok", "C03_driver", "C03_driver_bad_command", "C03_shape_refuted_pinned", "C03_driver_without_try_refuted"]
 SCRATCH = os.path.join(vlib.CACHE, "c03", "run%d" % os.getpid())      # one scratch tree per run: checks may run in parallel
 CORPUS = os.path.join(vlib.VERIF, "tools", "c03_corpus")
@@ -180,6 +187,11 @@ def build_library_cases(chk, bases):
         o["defines"] = []
         o["debug_iters"] = False
         cases.append({"base": label, "files": files, "entry": entry, "edits": [], "opts": o, "inline_all": True, "family": "zero"})
+    nr = rng.fork("note_parent")
+    for (label, files, entry) in g.note_parent_family():
+        for budget in (1, 2, 10):
+            o = {"budget": budget, "static": nr.chance(0.5), "matcher": nr.chance(0.5), "debug_iters": False, "defines": []}
+            cases.append({"base": label, "files": files, "entry": entry, "edits": [], "opts": o, "inline_all": True, "family": "note_parent"})
     mr = rng.fork("magnitude")
     for (label, files, entry, must_fail) in g.magnitude_family():
         o = options(mr, "")
@@ -234,6 +246,12 @@ def stream_library(chk, lim, bins, bases, known):
         for k in c["edits"]:
             dist["edit_" + k] = dist.get("edit_" + k, 0) + 1
         dist["mutants" if c["edits"] else "unmutated"] += 1
+        if c.get("family") == "note_parent":
+            dist["note_parent_family"] = dist.get("note_parent_family", 0) + 1
+            if d.get("status") == "ok":
+                dist["note_parent_family_ok"] = dist.get("note_parent_family_ok", 0) + 1
+        if d.get("T") is not None and d.get("E") is not None and d.get("T") != d.get("E"):
+            dist["runs_with_error_under_a_note_toplevel"] = dist.get("runs_with_error_under_a_note_toplevel", 0) + 1
         if c.get("family") == "magnitude":
             dist["magnitude_family"] = dist.get("magnitude_family", 0) + 1
             if d.get("status") == "ok":
@@ -323,6 +341,16 @@ def build_driver_cases(chk, bases, lib_cases, lib_out, formats):
         cmd.quiet = True
         cmd.groups[0]["out"] = "out.bin"
         cases.append(dict(c, cmd=cmd, faults=[], stream="driver", magnitude=True))
+    seen_np = set()
+    for i, c in enumerate(lib_cases):
+        if c.get("family") == "note_parent" and c["base"] not in seen_np:
+            seen_np.add(c["base"])
+            cmd = g.Cmd()
+            cmd.quiet = bool(i % 2)
+            cmd.budget = c["opts"]["budget"]
+            if i % 3 == 0:
+                cmd.groups[0]["print"] = True
+            cases.append(dict(c, cmd=cmd, faults=[], stream="driver", note_parent=True))
     zr = chk.rng.fork("driver-zero")
     zero = [i for i, c in enumerate(lib_cases) if c.get("family") == "zero"]
     for i in zr.shuffle(zero)[:(1200 if quick else len(zero))]:
@@ -537,6 +565,8 @@ def stream_real(chk, lim, real, drv_cases, drv_out, corpus_cases, known):
     zero = [i for i, c in enumerate(drv_cases) if c.get("zero")]
     for i in rng.shuffle(zero)[:(400 if quick else 3000)]:
         jobs.append((drv_cases[i], drv_cases[i]["cmd"], None, [], "zero", rng.choice(["debug", "release"])))
+    for k, i in enumerate(i for i, c in enumerate(drv_cases) if c.get("note_parent")):
+        jobs.append((drv_cases[i], drv_cases[i]["cmd"], None, [], "note_parent", ("debug", "release")[k % 2]))
     for k, i in enumerate(i for i, c in enumerate(drv_cases) if c.get("magnitude")):
         jobs.append((drv_cases[i], drv_cases[i]["cmd"], None, [], "magnitude", ("debug", "release")[k % 2]))
     okf = [i for i, c in enumerate(drv_cases) if c["stream"] == "fault" and not c["faults"] and on_disk(c) and drv_out[i].get("status") == "OK"]
@@ -551,7 +581,7 @@ def stream_real(chk, lim, real, drv_cases, drv_out, corpus_cases, known):
                           stdout_to=io.get("stdout"), stderr_to=io.get("stderr"))
     with ThreadPoolExecutor(vlib.NCPU) as ex:
         results = list(ex.map(work, range(len(jobs))))
-    dist = {"exit0": 0, "exit1": 0, "abnormal": 0, "corpus": 0, "plain": 0, "fault": 0, "stdio": 0, "argv": 0, "zero": 0, "magnitude": 0, "fault_made_it_fail": 0, "c19_class": 0}
+    dist = {"exit0": 0, "exit1": 0, "abnormal": 0, "corpus": 0, "plain": 0, "fault": 0, "stdio": 0, "argv": 0, "zero": 0, "magnitude": 0, "note_parent": 0, "fault_made_it_fail": 0, "c19_class": 0}
     for k, (job, res) in enumerate(zip(jobs, results)):
         c, cmd, prep, unw, what, prof = job[:6]
         io = job[6] if len(job) > 6 else {}
